@@ -265,6 +265,9 @@ class ResourcePeriodicallyUnavailable(ResourceConstraint):
                         )
                     ]
 
+                    # busy intervals moved to the past (unscheduled optional task,
+                    # worker not selected) are not concerned
+                    conds.append(start_task_i < 0)
                     if self.start > 0:
                         conds.append(end_task_i <= self.start)
                     if self.end is not None:
@@ -536,7 +539,9 @@ class ResourcePeriodicallyInterrupted(ResourceConstraint):
                 core = z3.And(*conds)
 
                 # the activity window applies to each task on its own
-                mask = [core]
+                # busy intervals moved to the past (unscheduled optional task,
+                # worker not selected) are not concerned
+                mask = [core, start_task_i < 0]
                 if self.start > 0:
                     mask.append(end_task_i <= self.start)
                 if self.end is not None:
